@@ -80,3 +80,68 @@ func VerifC01_SepForm() {
 	}
 	vAssert("sibling-string-untouched", *other == "dflt")
 }
+
+// bool passed n times, increment passed n times, bare optional-value options.
+func VerifC01_Flags() {
+	mode := vInt("mode", 0, 2)
+	what := vInt("what", 0, 3)
+	n := vInt("n", 1, 3)
+	short := vBool("short")
+	defB := vBool("defB")
+	defI := vInt("defI", -9223372036854775808, 9223372036854775807)
+	okind := 1 + 2*vInt("okind", 0, 2) // one of the three optional kinds
+	opt := New()
+	setMode(opt, mode)
+	b := opt.Bool("b", defB)
+	inc := opt.Increment("i", defI)
+	o := defineScalar(opt, okind, "o")
+	flag := opt.Bool("flag", false)
+	opt.NewCommand("cmd", "")
+	vPhase("run")
+	spell := func(name string) string {
+		if short {
+			return "-" + name
+		}
+		return "--" + name
+	}
+	var args []string
+	switch what {
+	case 0:
+		for k := 0; k < n; k++ {
+			args = append(args, spell("b"))
+		}
+	case 1:
+		for k := 0; k < n; k++ {
+			args = append(args, spell("i"))
+		}
+	case 2:
+		args = []string{spell("o")}
+	case 3:
+		args = []string{spell("o"), "--flag"}
+	}
+	remaining, err := opt.Parse(args)
+	vObserve("err", err)
+	vObserve("remaining", remaining)
+	vObserve("b", *b)
+	vObserve("i", *inc)
+	vAssert("no-error", err == nil)
+	vAssert("remaining-empty", len(remaining) == 0)
+	switch what {
+	case 0:
+		vAssert("bool/negated-default", *b == !defB)
+		vAssert("bool/called", opt.Called("b"))
+		vAssert("bool/value", opt.Value("b").(bool) == !defB)
+		vAssert("increment/untouched", *inc == defI)
+		vReach("bool")
+	case 1:
+		vAssert("increment/default-plus-n", *inc == defI+n)
+		vAssert("increment/called", opt.Called("i"))
+		vAssert("bool/untouched", *b == defB)
+		vReach("increment")
+	case 2, 3:
+		o.assertDefault("optional/keeps-default")
+		vAssert("optional/called", opt.Called("o"))
+		vAssert("optional/flag-after", *flag == (what == 3))
+		vReach("optional-bare")
+	}
+}
